@@ -36,7 +36,29 @@ REAL = ["pandapipes (all of it: create_*, pipeflow, Newton driver, components, r
 STUB = ["disk (SimFS: in-process path->bytes with injectable ENOSPC/EIO)"]
 PROPS = ("C05", "C07", "C12", "C14", "C15")
 
-OPTION_DEFAULTS = seams.PRISTINE_DEFAULTS
+# The model's own table of default values: what the documentation (docstring of init_options) states for the keys
+# it lists, and the values of the pinned tree for the keys it does not list.  Deliberately NOT read from the module
+# under test, so that a default silently changed in the code is a disagreement with the model.
+OPTION_DEFAULTS = {"friction_model": "nikuradse", "tol_p": 1e-5, "tol_m": 1e-5, "tol_T": 1e-3, "tol_res": 1e-3,
+                   "max_iter_hyd": 10, "max_iter_therm": 10, "max_iter_bidirect": 10, "error_flag": False, "alpha": 1,
+                   "nonlinear_method": "constant", "mode": "hydraulics", "ambient_temperature": 293.15,
+                   "check_connectivity": True, "max_iter_colebrook": 10, "only_update_hydraulic_matrix": False,
+                   "reuse_internal_data": False, "use_numba": True, "quit_on_inconsistency_connectivity": False,
+                   "calc_compression_power": True, "transient": False, "dt": None, "tolerance_colebrook": 1e-4}
+
+
+def documented_defaults():
+    """{key: value} parsed from the docstring of init_options ("- **key** (type): value - text")."""
+    import ast
+    import re
+    doc = init_options.__doc__ or ""
+    out = {}
+    for m in re.finditer(r"-\s+\*\*([a-zA-Z_]+)\*\*\s+\([a-z]+\):\s+(\S+)\s+-", doc):
+        try:
+            out[m.group(1)] = ast.literal_eval(m.group(2))
+        except (ValueError, SyntaxError):
+            out[m.group(1)] = m.group(2)
+    return out
 STAGE_ITER = ("max_iter_hyd", "max_iter_therm", "max_iter_bidirect")
 REL_MARGIN = 1e-9  # verdict model: comparisons closer than this to a tolerance are not judged
 
@@ -977,6 +999,9 @@ def _nonfinite_supplied(net, mode):
     return bad
 
 
+DOCUMENTED = documented_defaults()
+
+
 def _check_options(res, net, model, oi, site, user, call, after_calc=False):
     got = net.get("_options")
     if got is None:
@@ -1000,6 +1025,15 @@ def _check_options(res, net, model, oi, site, user, call, after_calc=False):
                 res.violate("C14", "C14/resolution:%s:%s@%s" % (k, layers, site), "got %r want %r" % (a, b), oi)
         res.count("optcell:%s:%s%s%s" % (k, "u" if k in user else "-", "c" if k in call else "-",
                                        "i" if ("iter" in call or "iter" in user) and k in STAGE_ITER else ""))
+    # "... else the documented default": where no layer sets a key that the documentation lists with a default,
+    # the value in force must be the one the documentation states
+    for k, doc in sorted(DOCUMENTED.items()):
+        if k in skip or k in user or k in call or k not in got:
+            continue
+        if ("iter" in user or "iter" in call) and k in STAGE_ITER:
+            continue
+        if got[k] != doc or isinstance(got[k], bool) != isinstance(doc, bool):
+            res.violate("C14", "C14/documented-default-differs:%s@%s" % (k, site), "in force %r, documented %r" % (got[k], doc), oi)
     res.oracle_checks += 1
 
 
